@@ -83,12 +83,15 @@ theorem source_capacities :
 
 /-- **the goroutines of the Go source are the threads of the model**: `New` starts exactly one goroutine (the
     dispatcher: one program counter `q.pc`), unconditionally; the dispatcher starts one worker goroutine per iteration of a
-    loop `0 ≤ i < q.workers` (`init c` has `c.workers` idle threads); nothing else is started anywhere — neither by
-    `Submit`/`Shutdown` (seeded/ind6-c15-a) nor by a worker -/
+    loop that runs `q.workers` times (`init c` has `c.workers` idle threads); nothing else is started anywhere — neither
+    by `Submit`/`Shutdown` (seeded/ind6-c15-a) nor by a worker.  Which role starts which is always decided; about the
+    multiplicity of a `go` statement in a loop whose bound the extractor cannot classify nothing is claimed (the
+    forced schedules count the workers: seeded/own-c15-8) -/
 theorem source_goroutines (c : Cfg) :
-    C15Facts.gos = [(.dispatcher, .worker, .perWorker), (.new_, .dispatcher, .once)] ∧
+    C15Facts.gos.map (fun g => (g.1, g.2.1)) = [(.dispatcher, .worker), (.new_, .dispatcher)] ∧
+    (∀ g ∈ C15Facts.gos, g.2.2 = .unclassified ∨ g ∈ [(Role.dispatcher, Role.worker, Mult.perWorker), (.new_, .dispatcher, .once)]) ∧
     (init c).ws = List.replicate c.workers W.idle ∧ (init c).q.pc = .sel := by
-  refine ⟨by decide, rfl, rfl⟩
+  refine ⟨by decide, by decide, rfl, rfl⟩
 
 /-- **the straight-line roles**: `Submit` is one send on `in` (rule `submit`); `Shutdown` is `close(in)` followed by the
     receive from `done` (rules `shutdown`, then `signalDone`: `shut` goes 0 → 1 → 2); the loop of a worker is: receive
